@@ -491,7 +491,8 @@ PROPS["C20"] = {
              "load of 24 concurrent proxy/client/answer triples per round through the real HTTP handlers with metrics readers in parallel, "
              "concurrent log-scrubber writers, redial/queue adapter stress, multi-session carrier churn through the real server (server, "
              "QueuePacketConn, ClientMap, websocketconn), the client's Peers machine and failing rendezvous with real pion, and proxy session "
-             "sequences with real pion; thorough tier: the whole-system unit with the broker and proxy binaries built with -race (their own "
+             "sequences with real pion, the proxy's periodic summary logger fed by 1-12 session goroutines through the shared event "
+             "dispatcher while its timer ticks every millisecond (also judged by conservation: the summary lines account for exactly the sessions that ended); thorough tier: the whole-system unit with the broker and proxy binaries built with -race (their own "
              "reports are collected) and the client and server libraries race-checked inside the harness process under real proxy churn. Oracle: the happens-before race detector; a report counts when both conflicting accesses are in "
              "non-test code of the repository or its dependencies (harness goroutines are excluded by stack inspection); reports are grouped "
              "by the unordered pair of source locations. Non-trivial = a workload case in which >= 2 goroutines were inside the component "
@@ -507,6 +508,7 @@ PROPS["C20"] = {
         R("c20_server", "ext", "c05", "^TestVerifC05Sessions$", (12, 150), shards=(3, 6)),
         R("c20_peers", "inpkg", "client/lib", "^TestVerifC15(Peers|Rendezvous)$", (40, 400)),
         R("c20_proxy", "inpkg", "proxy/lib", "^TestVerifC16Sessions$", (15, 150)),
+        R("c20_eventlogger", "inpkg", "proxy/lib", "^TestVerifC20EventLogger$", (60, 600)),
         R("c20_system", "ext", "sys", "^TestVerifC01System$", (0, 8), shards=(0, 4), timeout=(400, 3400), tiers=["thorough"], env={"VERIF_SYS_RACE": "1"}),
     ],
 }
